@@ -62,6 +62,16 @@ def unit(u) -> Stats:
             if st.nviol >= 2:
                 return st
             continue
+        # a consumer may do anything with the game it received (normalise it, overwrite it): scribble over the first result
+        # before asking again - a generator that hands out a shared/memoised object would now return the scribble
+        v1 = np.array(v1, copy=True)
+        try:
+            if hasattr(g1, "set_values"):
+                g1.set_values(np.arange(1 << n, dtype=np.float64))
+            elif hasattr(g1, "_graph_matrix"):
+                g1._graph_matrix += 1.0
+        except Exception:  # noqa: BLE001 - the scribble is harness behaviour, never a verdict
+            pass
         try:
             v2 = np.asarray(gens.draw_game(name, n, seed).get_values())
         except Exception as e:  # noqa: BLE001
@@ -81,6 +91,37 @@ def unit(u) -> Stats:
         st.outcomes.add(hash(v1.tobytes()))
     if n == 4 and name in ("noisy_factory", "oxs"):
         st.sample({"generator": name, "n": n, "seed": seeds[0], "values": gens.draw(name, n, seeds[0])})
+    return st
+
+
+def history_unit(u) -> Stats:
+    """The result of a seeded call is a function of (name, n, seed) only - not of which calls were made before in the same
+    process. Runs in a freshly forked process: explores every ordered pair (n_a then n_b) and an ascending / descending sweep
+    of player counts for one generator, comparing with the values obtained first (in pristine module state)."""
+    name, ns, seeds = u
+    st = Stats()
+    ref = {}
+    doc = {"generator": name, "history": True}
+    try:
+        for n in ns:                      # ascending sweep in a pristine process: the reference
+            for s in seeds:
+                ref[(n, s)] = np.array(gens.draw_game(name, n, s).get_values(), copy=True)
+                st.transitions += 1
+        orders = [list(reversed(ns))] + [[a, b] for a in ns for b in ns if a != b]
+        for order in orders:
+            for n in order:
+                for s in seeds:
+                    v = np.asarray(gens.draw_game(name, n, s).get_values())
+                    st.transitions += 1
+                    st.evals += 1
+                    if not np.array_equal(v, ref[(n, s)]):
+                        st.violation(f"[generator {name} n={n} seed={s}] the seeded call returns a different game after the calls {order} than it did first in this "
+                                     f"process: {v.tolist()} vs {ref[(n, s)].tolist()}", n=n, gen_seed=s, order=order, **doc)
+                        return st
+            st.states += 1
+            st.nontrivial += 1
+    except Exception as e:  # noqa: BLE001
+        st.violation(f"[generator {name}] raised {type(e).__name__}: {e} during a call history", n=ns[0], gen_seed=seeds[0], **doc)
     return st
 
 
@@ -113,9 +154,20 @@ def run(run: Run) -> None:
     run.bounds = {"generators": len(gens.names()), "n": [ns[0], ns[-1]], "seed_window": [seeds[0], seeds[-1]]}
     run.assumptions = ["'all seeds' is met by a complete window that VERIF_SEED moves", "'convex' cannot run here (external dependency missing)"]
     run.add(fanout(unit, sorted(us, key=lambda u: -cost(u)), chunk=1))
+    from ..core import fresh_forks
+    hist_ns = [3, 4, 5, 6] if quick else [3, 4, 5, 6, 7]
+    hus = [(name, hist_ns if name != "oxs" else hist_ns[:3], seeds[:2]) for name in gens.names() if not gens.is_unseeded(name)]
+    run.add(fresh_forks(history_unit, hus, procs=14))
+    run.rule += ("; call histories: for every seeded generator, in a freshly forked process, every ordered pair of player counts and a descending sweep - a "
+                 "seeded call must return what it returned first; the first result is scribbled over before the second identically seeded call")
 
 
 def replay(doc: dict):
+    if doc.get("history"):
+        from ..core import fresh_forks
+        st = fresh_forks(history_unit, [(doc["generator"], sorted(set(doc.get("order", [3, 4]) + [doc["n"]])), [doc["gen_seed"]])], procs=1)
+        msgs = [v["message"] for v in st.violations]
+        return bool(msgs), "; ".join(msgs) if msgs else "seeded calls are history independent for this generator"
     st = unit((doc["generator"], doc["n"], [doc["gen_seed"]]))
     msgs = [v["message"] for v in st.violations]
     return bool(msgs), "; ".join(msgs) if msgs else f"generator {doc['generator']} n={doc['n']} seed={doc['gen_seed']} yields a game of its class"
